@@ -2016,6 +2016,13 @@ func (s *SelectStatement) rewriteWithoutTimeDimensions() string {
 			if n.Op == AND || n.Op == OR {
 				return n
 			}
+			// Only a comparison with time is a time bound; arithmetic on
+			// time (time - 1h > x) is left to the rest of the condition.
+			switch n.Op {
+			case EQ, NEQ, LT, LTE, GT, GTE:
+			default:
+				return n
+			}
 			if lhs, ok := stripParens(n.LHS).(*VarRef); ok && strings.ToLower(lhs.Val) == "time" {
 				return &BooleanLiteral{Val: true}
 			} else if rhs, ok := stripParens(n.RHS).(*VarRef); ok && strings.ToLower(rhs.Val) == "time" {
